@@ -32,9 +32,11 @@ CLAIMS = {
                    'with ValueError at construction',
 }
 GOALS = {'quick': ['a chain of 3', 'two steps in one layer', 'nested', 'split',
-                   'a flow step also makes a structural update'],
+                   'a flow step also makes a structural update',
+                   'deriver created at run time'],
          'thorough': ['a chain of 3', 'two steps in one layer', 'nested',
-                      'split', 'a flow step also makes a structural update']}
+                      'split', 'a flow step also makes a structural update',
+                      'deriver created at run time']}
 STUBS = ['flow steps computing v_j from what they read (set updater that logs '
          'applications); one of them (symbolic choice, or none) adds a child '
          'to a glob store in the same update, every phase', 'two legacy derivers (one listed under processes, one '
@@ -47,7 +49,8 @@ BOUNDS = {'quick': 'S<=3 flow steps (all DAGs), 2 derivers, layouts flat / '
                    'nested depth 2 / split over two compartments, 2 declaration '
                    'orders, timestep in [1,3], update(<=3)',
           'thorough': 'S<=4 flow steps, same layouts, update(<=4)'}
-OUTSIDE = 'steps added/removed at run time (C10); parallel steps (C13)'
+OUTSIDE = 'steps removed at run time, flow steps added at run time (C10; a '\
+          'legacy deriver generated at run time is covered here); parallel steps (C13)'
 
 LOG = []
 CTX = {}
@@ -76,6 +79,37 @@ class Proc(Process):
     def next_update(self, timestep, states):
         LOG.append(('proc', self.name))
         return {'s': {'x': self.parameters['d']}}
+
+
+def log_spawn(cur, new):
+    CTX['applies'] += 1
+    LOG.append(('apply_p', 'spawn'))
+    return cur + new
+
+
+class Spawner(Process):
+    """generates, once, a compartment holding a legacy deriver (a step listed
+    under processes, no flow entry)"""
+
+    def ports_schema(self):
+        return {'s': {'n_spawned': {'_default': 0, '_updater': log_spawn}},
+                'gen': {'*': {'k': {'_default': 0}}}}
+
+    def calculate_timestep(self, states):
+        return self.parameters['ts']
+
+    def next_update(self, timestep, states):
+        LOG.append(('proc', self.name))
+        if CTX.get('spawn_issued'):
+            return {'s': {'n_spawned': 0}}
+        CTX['spawn_issued'] = True
+        late = FS({'name': 'late', 'deps': [], 'c': 5})
+        return {'s': {'n_spawned': 1},
+                'gen': {'_generate': [{
+                    'key': 'c1', 'processes': {'late': late},
+                    'topology': {'late': {'s': ('..', '..', 's'),
+                                          'o': ('..', '..', 'o')}},
+                    'initial_state': {}}]}}
 
 
 class FS(Step):
@@ -207,6 +241,14 @@ def body(ctx, cfg):
         topology_p = topology_p[seg]
     topology_p['p'] = {'s': up + ('s',)}
     topology_p['p2'] = {'s': up + ('s',)}
+    CTX['spawn_issued'] = False
+    spawn = ctx.flag('spawn')
+    if spawn:
+        # a deriver created at run time takes part in every later phase
+        processes['spawner'] = Spawner({'name': 'spawner',
+                                        'ts': ctx.int('ts', 1, 2)})
+        topology['spawner'] = {'s': ('s',), 'gen': ('gen',)}
+        ctx.goal('deriver created at run time')
 
     def hook(data):
         LOG.append(('emit', data['table']))
@@ -214,6 +256,7 @@ def body(ctx, cfg):
     try:
         e = Engine(processes=processes, steps=steps, flow=flow,
                    topology=topology, emitter={'type': 'vsym_rec'},
+                   initial_state={'gen': {'c0': {'k': 1}}} if spawn else None,
                    display_info=False)
     except PathControl:
         raise
@@ -239,6 +282,7 @@ def body(ctx, cfg):
             i += 1
         return ph, i
     shape_ok = True
+    spawned_before = set()     # indices of phases that follow a spawner batch
     ph, i = take_phase(i)
     phases.append(ph)
     shape_ok &= log[i:i + 2] == [('emit', 'configuration'), ('emit', 'history')]
@@ -250,6 +294,8 @@ def body(ctx, cfg):
             i += 1
         n_app = 0
         while i < len(log) and log[i][0] == 'apply_p':
+            if log[i] == ('apply_p', 'spawn'):
+                spawned_before.add(len(phases))
             n_app += 1
             i += 1
         if n_app == 0:
@@ -275,10 +321,15 @@ def body(ctx, cfg):
     if len(set(layer.values())) < len(names):
         ctx.goal('two steps in one layer')
     once = deps_ok = der_ok = layer_ok = True
-    for ph in phases:
+    first_late = None
+    if spawn and CTX['spawn_issued'] and spawned_before:
+        first_late = min(spawned_before)
+    for k_ph, ph in enumerate(phases):
         runs = [en for en in ph if en[0] == 'step']
         order = [en[1] for en in runs]
-        once &= sorted(order) == sorted(names + ['der_a', 'der_b'])
+        late = ['late'] if first_late is not None and k_ph >= first_late \
+            else []
+        once &= sorted(order) == sorted(names + ['der_a', 'der_b'] + late)
         once &= all(en[2] == 0 for en in runs)
         pos = {}
         for k, en in enumerate(ph):
@@ -314,6 +365,8 @@ def body(ctx, cfg):
             vals.append(EQ(row['o']['v_' + n], ref[n]))
         vals.append(EQ(row['o']['v_der_a'], 1 + 7 * x))
         vals.append(EQ(row['o']['v_der_b'], 1 + (1 + 7 * x)))
+        if 'v_late' in row['o']:
+            vals.append(EQ(row['o']['v_late'], 1 + 5 * x))
         ctx.observe('x', x)
         for n in names:
             ctx.observe(n, row['o']['v_' + n])
